@@ -20,7 +20,7 @@ def runL (E : Env) (cfg : String → PV) : Nat → String → List PV → MRes
 the translated source text (call depth 3: validate → float_validate → _validate_int). -/
 def srcPy (E : Env) (t : TraitType) (v : Val) : Option Res :=
   match pyMethodOf t with
-  | some name => toRes (runL E (selfCfg t) 3 name [.self_, .hobj, .name, .val v])
+  | some name => toRes (runL E (selfCfgE E t) 3 name [.self_, .hobj, .name, .val v])
   | none => none
 
 end TraitsVerif.Model.PyVSrc
